@@ -149,13 +149,16 @@ def run(ctx, W, memo=None):
         W.cfg = (op, tuple(wells), shape)
         getattr(wl, op)(lab, wells, vols, **kw)
     elif op == "transfer":
+        SRC, DST = (W.dst, W.src) if p.get("reverse") else (W.src, W.dst)
+        if p.get("reverse"):
+            sids, dids = dids, sids
         sc, dc = cand(p, sids, "src"), cand(p, dids, "dst")
         vlo = -common.BIG if p.get("neg") else 0
         arg_s = arg_d = arg_v = None
         if p.get("shape2d"):
             # 2-D array arguments (read column-major): wells[0:2, 0:2] of both labware, volumes as a 2x2 nested list
             rr, cc = min(2, len(W.src.row_ids), len(W.dst.row_ids)), min(2, W.src.n_columns, W.dst.n_columns)
-            arg_s, arg_d = W.src.wells[0:rr, 0:cc], W.dst.wells[0:rr, 0:cc]
+            arg_s, arg_d = SRC.wells[0:rr, 0:cc], DST.wells[0:rr, 0:cc]
             grid = [[ctx.real(f"x{r}_{c}", vlo, common.BIG) for c in range(cc)] for r in range(rr)]
             arg_v = grid
             rows = "ABCDEFGHIJKLMNOPQRSTUVWXYZ"
@@ -186,7 +189,7 @@ def run(ctx, W, memo=None):
             dw = [ctx.choose(f"dst{i}", dc) for i in range(k)]
             per = [ctx.real(f"x{i}", vlo, common.BIG) for i in range(k)]
         for s_, d_, v in zip(sw, dw, per):
-            W.named += [("S", s_, -1, v), (W.dst.name, d_, 1, v)]
+            W.named += [(SRC.name, s_, -1, v), (DST.name, d_, 1, v)]
             W.pairs.append((s_, d_, v))
         wash = ctx.choose("wash", p.get("washes", [1, "reuse"]))
         W.wash = wash
@@ -210,9 +213,9 @@ def run(ctx, W, memo=None):
         elif p.get("bad") == "src-1":
             sw = sw[:-1]
         if arg_s is not None:
-            wl.transfer(W.src, arg_s, W.dst, arg_d, arg_v, partition_by=p.get("partition_by", "auto"), wash_scheme=wash, **W.kwargs, **kw)
+            wl.transfer(SRC, arg_s, DST, arg_d, arg_v, partition_by=p.get("partition_by", "auto"), wash_scheme=wash, **W.kwargs, **kw)
         else:
-            wl.transfer(W.src, sw, W.dst, dw, args_v, partition_by=p.get("partition_by", "auto"), wash_scheme=wash, **W.kwargs, **kw)
+            wl.transfer(SRC, sw, DST, dw, args_v, partition_by=p.get("partition_by", "auto"), wash_scheme=wash, **W.kwargs, **kw)
     elif op == "distribute":
         col = ctx.choose("col", list(range(W.src.n_columns)))
         sels = p.get("dsels") or [[0], [0, -1], [1, 2, 0]]
